@@ -633,6 +633,9 @@ theorem readSubtable_cost (b : Bytes) (pos tp : Nat) (r : Sub) (c : Cost)
   obtain ⟨format, _, h⟩ := bind_eq_ok h
   dsimp only at h
   split at h
+  · cases h
+  unfold dispatchKey at h
+  split at h
   · obtain ⟨x, hx, h⟩ := bind_eq_ok h
     obtain ⟨x1, x2⟩ := x
     have := read11_cost _ _ _ _ hx
